@@ -291,7 +291,7 @@ def run_scripts(cases):
                 intact = want is None or (d.get("result") or {}).get("t") == want
                 items.append(["own" if same else ("ownWrongType" if str(mid) == str(rid) else "other"), src, 0, same, bool(intact)])
         ev("End", read=items, tasks=max(leaked, len(asyncio.all_tasks()) - tasks_before), clients=all(c.is_closed for c in clients), streams=closed_streams,
-           expReq=path["req"], expOwn=path["own"], expSrv=path["srv"], unposted=unposted[0])
+           expReq=path["req"], expOwn=path["own"], expSrv=path["srv"], expSrc=path.get("src", "none"), unposted=unposted[0])
         return {"estab": estab, "ev": evs, "idshape": idshape, "exit": exit_path}
 
     for path, seed in cases:
@@ -306,5 +306,5 @@ def run_scripts(cases):
         except vloop.Deadlock:
             # nothing can ever happen again: leaving the context (or entering it) hangs
             out.append({"estab": path["estab"], "idshape": "n/a", "exit": "hung",
-                        "ev": [{"e": "End", "t": 0, "read": [], "tasks": 99, "clients": False, "streams": False, "expReq": path["req"], "expOwn": path["own"], "expSrv": path["srv"], "unposted": 0, "hung": True}]})
+                        "ev": [{"e": "End", "t": 0, "read": [], "tasks": 99, "clients": False, "streams": False, "expReq": path["req"], "expOwn": path["own"], "expSrv": path["srv"], "expSrc": path.get("src", "none"), "unposted": 0, "hung": True}]})
     return out
